@@ -23,6 +23,9 @@ class Balancer:
         self._ast_hash_map = {}
         self._lower_bounds = {}
         self._upper_bounds = {}
+        # bounds from signed comparisons are kept apart: a signed bound says nothing about the unsigned order
+        self._signed_lower_bounds = {}
+        self._signed_upper_bounds = {}
 
         self.sat = True
         try:
@@ -38,34 +41,50 @@ class Balancer:
         return (self.sat, self.replacements)
 
     def _replacements_iter(self):
-        all_keys = set(self._lower_bounds.keys()) | set(self._upper_bounds.keys())
+        all_keys = (
+            set(self._lower_bounds.keys())
+            | set(self._upper_bounds.keys())
+            | set(self._signed_lower_bounds.keys())
+            | set(self._signed_upper_bounds.keys())
+        )
         for k in all_keys:
             ast = self._ast_hash_map[k]
-            max_int = (1 << len(ast)) - 1
-            min_int = 0
-            mn = self._lower_bounds.get(k, min_int)
-            mx = self._upper_bounds.get(k, max_int)
-            bound_si = claripy.BVS("bound", len(ast)).annotate(claripy.annotation.StridedIntervalAnnotation(1, mn, mx))
-            log.debug("Yielding bound %s for %s.", bound_si, ast)
+            ranges = []
+            if k in self._lower_bounds or k in self._upper_bounds:
+                ranges.append((self._lower_bounds.get(k, 0), self._upper_bounds.get(k, (1 << len(ast)) - 1)))
+            if k in self._signed_lower_bounds or k in self._signed_upper_bounds:
+                ranges.append(
+                    (
+                        self._signed_lower_bounds.get(k, -(1 << (len(ast) - 1))),
+                        self._signed_upper_bounds.get(k, (1 << (len(ast) - 1)) - 1),
+                    )
+                )
+            bounded = ast
+            for mn, mx in ranges:
+                bound_si = claripy.BVS("bound", len(ast)).annotate(
+                    claripy.annotation.StridedIntervalAnnotation(1, mn, mx)
+                )
+                log.debug("Yielding bound %s for %s.", bound_si, ast)
+                bounded = bounded.intersection(bound_si)
             if ast.op == "Reverse":
-                yield (ast.args[0], ast.intersection(bound_si).reversed)
+                yield (ast.args[0], bounded.reversed)
             else:
-                yield (ast, ast.intersection(bound_si))
+                yield (ast, bounded)
 
-    def _add_lower_bound(self, o, b):
-        if o.hash() in self._lower_bounds:
-            old_b = self._lower_bounds[o.hash()]
-            b = max(b, old_b)
+    def _add_lower_bound(self, o, b, signed=False):
+        bounds = self._signed_lower_bounds if signed else self._lower_bounds
+        if o.hash() in bounds:
+            b = max(b, bounds[o.hash()])
 
-        self._lower_bounds[o.hash()] = b
+        bounds[o.hash()] = b
         self._ast_hash_map[o.hash()] = o
 
-    def _add_upper_bound(self, o, b):
-        if o.hash() in self._upper_bounds:
-            old_b = self._upper_bounds[o.hash()]
-            b = min(b, old_b)
+    def _add_upper_bound(self, o, b, signed=False):
+        bounds = self._signed_upper_bounds if signed else self._upper_bounds
+        if o.hash() in bounds:
+            b = min(b, bounds[o.hash()])
 
-        self._upper_bounds[o.hash()] = b
+        bounds[o.hash()] = b
         self._ast_hash_map[o.hash()] = o
 
     @property
@@ -674,10 +693,10 @@ class Balancer:
 
         if is_lt:
             current_max = min(int_max, left_max, bound_max)
-            self._add_upper_bound(truism.args[0], current_max)
+            self._add_upper_bound(truism.args[0], current_max, signed=not is_unsigned)
         else:
             current_min = max(int_min, left_min, bound_min)
-            self._add_lower_bound(truism.args[0], current_min)
+            self._add_lower_bound(truism.args[0], current_min, signed=not is_unsigned)
 
     def _handle_eq(self, truism):
         lhs, rhs = truism.args
